@@ -698,6 +698,11 @@ func (fl *File) Write(b []byte) (int, error) {
 	if !fl.write {
 		return 0, perr("write", fl.name, syscall.EBADF)
 	}
+	if !strings.HasPrefix(fl.abs, "/work/log/") {
+		// a write(2) of Go code is a scheduling point like any other system call
+		// (round 6; the library's own log file is exempt: logging never yields)
+		s.Pre("write", fl.n.Ino, fl.name)
+	}
 	if len(b) > 0 {
 		k, full := fl.fs.goWriteFault(fl.abs, len(b))
 		if k > 0 {
